@@ -791,15 +791,15 @@ def run_c05(run, thorough=False):
         if mn in ("FCB", "FDB"):
             w = 1 if mn == "FCB" else 2
             vals = [lit_value(e) for e in m["elems"]]
-            if any(e == "SYM" for e in m["elems"]):
-                vals = [7 if e == "SYM" else v for e, v in zip(m["elems"], vals)]
+            if any(e in ("SYM", "1+1") for e in m["elems"]):
+                vals = [7 if e == "SYM" else 2 if e == "1+1" else v for e, v in zip(m["elems"], vals)]
             if any(e == "" for e in m["elems"]) or any(v is None for v in vals):
                 continue                      # not a plain value list: no expectation
             fits = all(-(1 << (8 * w - 1)) <= v < (1 << (8 * w)) for v in vals)
             want = "".join("%0*x" % (2 * w, v % (1 << (8 * w))) for v in vals) if fits else None
             rid = None
-            if any(e == "SYM" for e in m["elems"]) and len(m["elems"]) > 1:
-                rid = "C2"            # a symbol inside a LIST is rejected (single values are evaluated since 3dd5ba5)
+            if any(e in ("SYM", "1+1") for e in m["elems"]) and len(m["elems"]) > 1:
+                rid = None            # (was finding C2: a symbol inside a LIST rejected; repaired in e6da74c)
             if want is None:
                 if im["k"] == "ok":
                     run.violate("C05: a value that does not fit the directive's width is not rejected", inp, "diag", got, known_id=rid if same else None)
@@ -980,7 +980,7 @@ def c18_programs(rnd, n):
                 "LDA #$12", "LDX #%s" % ref, "LDD #%s+2" % ref, "JMP %s" % ref, "JSR %s-1" % ref, "LDA %s" % ref, "STB >%s" % ref,
                 "BRA %s" % ref, "BNE %s" % ref, "LBSR %s" % ref, "LEAX %s,PCR" % ref, "LDY [%s,PCR]" % ref, "LEAU %s+1,PCR" % ref,
                 "NOP", "CLRA", "PSHS A,B,X", "TFR X,Y", "LDA ,X+", "STA 5,Y", "LDD $1234,U", "LDX [%s]" % ref, "FCB 1,2,3", "FDB $1234", "RMB 3",
-                "FCC \"AB\"", "LDA #C1", "LDB C1,X", "CMPX #$4000", "LDA %s,X" % ref, "LDU [%s,Y]" % ref, "LDD [%s,PCR]" % ref, "STA %s+1,U" % ref,
+                "FCC \"AB\"", "LDA #C1", "LDB C1,X", "CMPX #$4000", "FDB %s,%s+1,C1" % (ref, ref), "FDB 1,%s" % ref, "LDA %s,X" % ref, "LDU [%s,Y]" % ref, "LDD [%s,PCR]" % ref, "STA %s+1,U" % ref,
                 "LEAY [%s]" % ref])
             body.append((lab, st))
         lines = ["C1 EQU $20", " ORG $%04X" % org] + ["%s %s" % (l, s) for l, s in body]
